@@ -1044,3 +1044,111 @@ func stName(s gdump.Status) string {
 	}
 	return "parked"
 }
+
+// ---------------------------------------------------------------- Counter subscriptions
+
+// runSubscribers: N subscriptions (some with several callbacks) come and go
+// between value changes. Every change must reach every CURRENT callback exactly
+// once with the right (old, new) pair, and a removed subscription none: an
+// unsubscribe removes exactly its own subscription.
+func runSubscribers(cfg waitCfg) (res waitResult) {
+	res.Cfg = cfg
+	rng := rand.New(rand.NewSource(cfg.Seed*69069 + int64(cfg.Idx)))
+	c := syncutils.NewCounter()
+	v := 0
+	type cb struct {
+		calls        int
+		lastO, lastN int
+	}
+	type sub struct {
+		id     int
+		cbs    []*cb
+		unsub  func()
+		active bool
+	}
+	var subs []*sub
+	newSub := func() {
+		s := &sub{id: len(subs), active: true}
+		var fs []func(int, int)
+		for k := 0; k < 1+rng.Intn(2); k++ {
+			x := &cb{}
+			s.cbs = append(s.cbs, x)
+			fs = append(fs, func(o, n int) { x.calls++; x.lastO, x.lastN = o, n })
+		}
+		s.unsub = c.Subscribe(fs...)
+		subs = append(subs, s)
+		res.tr("subscription #%d with %d callback(s)", s.id, len(s.cbs))
+	}
+	for i := 0; i < 1+rng.Intn(3); i++ {
+		newSub()
+	}
+	steps := 10 + rng.Intn(12)
+	for st := 0; st < steps && len(res.Findings) == 0; st++ {
+		switch k := rng.Intn(6); {
+		case k == 0:
+			newSub()
+		case k == 1:
+			var act []*sub
+			for _, s := range subs {
+				if s.active {
+					act = append(act, s)
+				}
+			}
+			if len(act) > 0 {
+				s := act[rng.Intn(len(act))]
+				s.unsub()
+				s.active = false
+				res.tr("unsubscribe #%d", s.id)
+				if rng.Intn(4) == 0 {
+					s.unsub() // a second call must be harmless
+				}
+			}
+		default:
+			before := make(map[*cb]int)
+			for _, s := range subs {
+				for _, x := range s.cbs {
+					before[x] = x.calls
+				}
+			}
+			old := v
+			switch rng.Intn(3) {
+			case 0:
+				d := 1 + rng.Intn(3)
+				if rng.Intn(2) == 0 {
+					d = -d
+				}
+				c.Update(d)
+				v += d
+			case 1:
+				c.Increase()
+				v++
+			default:
+				n := v + 1 + rng.Intn(4)
+				c.Set(n)
+				v = n
+			}
+			res.tr("value %d -> %d", old, v)
+			for _, s := range subs {
+				for _, x := range s.cbs {
+					got := x.calls - before[x]
+					res.Checks++
+					switch {
+					case s.active && got == 0:
+						res.viol("counter/subscribe/subscriber-missed-update", "subscription #%d is still subscribed but was not called for the change %d -> %d (an unsubscribe of ANOTHER subscription removed it?)", s.id, old, v)
+					case s.active && got > 1:
+						res.viol("counter/subscribe/called-more-than-once", "subscription #%d was called %d times for one change", s.id, got)
+					case s.active && (x.lastO != old || x.lastN != v):
+						res.viol("counter/subscribe/wrong-values", "subscription #%d was called with (%d,%d) for the change %d -> %d", s.id, x.lastO, x.lastN, old, v)
+					case !s.active && got > 0:
+						res.viol("counter/subscribe/unsubscribed-subscriber-still-called", "subscription #%d was unsubscribed but is still called (%d -> %d)", s.id, old, v)
+					case s.active:
+						res.Returned++
+					default:
+						res.Parked++
+					}
+				}
+			}
+		}
+	}
+	return
+}
